@@ -1,6 +1,7 @@
 package harness
 
 import (
+	"bytes"
 	"errors"
 	"fmt"
 	"testing"
@@ -14,7 +15,10 @@ const c02Rule = "C01's generated schedules and configurations plus fault injecti
 func TestC02Provenance(t *testing.T) {
 	runCheck(t, "C02", "C02Provenance", c02Rule, func(c *Case) {
 		// keys that differ only by a trailing zero byte, and the empty key, are distinct keys
-		keys := [][][]byte{scenKeys, {[]byte("k1"), []byte("k1\x00"), []byte("k1\x00\x00")}, {[]byte(""), []byte("\x00"), []byte("k3")}}[c.Weighted("key-alphabet", 3, 1, 1)]
+		// and two distinct keys with the same 64-bit xxhash are distinct keys as well
+		collBase := bytes.Repeat([]byte("collide!"), 8)
+		keys := [][][]byte{scenKeys, {[]byte("k1"), []byte("k1\x00"), []byte("k1\x00\x00")}, {[]byte(""), []byte("\x00"), []byte("k3")},
+			{collBase, collide(collBase, 1, 0x9E3779B97F4A7C15), []byte("k3")}}[c.Weighted("key-alphabet", 3, 1, 1, 1)]
 
 		propFailoverSched(c, scenOpts{keys: keys, maxKeys: 3, minGets: 2, maxGets: 6, skipRead: true, clock: 3, external: 2, prefail: true, postActions: true, faults: 2, failPct: 40, errKinds: true},
 			func(w *world, sc *scenario, complete bool) {
